@@ -58,6 +58,37 @@ Theorem C07_new_projection_denotes_string :
 Proof. exact new_projection_denotes_string. Qed.
 Print Assumptions C07_new_projection_denotes_string.
 
+(** an unquoted word denotes exactly its bytes: if, in the text w ++ rest, the
+    word w splits into whole runes none of which is a space, an operator
+    character or the blank (invalid bytes count as one-byte runes, so letters
+    whose UTF-8 encoding contains 0x85 or 0xA0 are ordinary), w does not start
+    with an operator start, a quote or (for a value) a slash, is not AND / OR,
+    and rest is empty or starts with a space or an operator, then the next
+    token is the word w and what follows is exactly rest *)
+Theorem C07_bare_word_ok :
+  forall (is_space : N -> bool) (re_ok : bytes -> bool) (n0 : nat) allow_regexp c w rest e,
+  runes_in is_space rest (c :: w) -> word_stop is_space rest ->
+  is_start_op c = false -> c <> c_dquote -> (allow_regexp = true -> c <> c_fslash) ->
+  c :: w <> word_AND -> c :: w <> word_OR ->
+  next is_space re_ok n0 allow_regexp ((c :: w) ++ rest) e =
+  (mkTok KWord (off_of n0 ((c :: w) ++ rest)) (c :: w), rest, (c :: w) ++ rest, e).
+Proof. exact bare_word_ok. Qed.
+Print Assumptions C07_bare_word_ok.
+
+(** non-vacuity: x, a-grave (c3 a0), U+5165 (e5 85 a5), then a colon *)
+Example C07_bare_example :
+  runes_in go_is_space [c_colon; x76] [x78; xc3; xa0; xe5; x85; xa5] /\
+  word_stop go_is_space [c_colon; x76] /\
+  parse_filter go_is_space (fun _ => true) ([x78; xc3; xa0; xe5; x85; xa5] ++ [c_colon; x76])
+    = Ok (FMatch [x78; xc3; xa0; xe5; x85; xa5] (MLit [x76]) 0).
+Proof.
+  split; [|split; [right; reflexivity | vm_compute; reflexivity]].
+  apply (runes_cons go_is_space _ [x78] [xc3; xa0; xe5; x85; xa5] 120%N); try reflexivity; [discriminate|].
+  apply (runes_cons go_is_space _ [xc3; xa0] [xe5; x85; xa5] 224%N); try reflexivity; [discriminate|].
+  apply (runes_cons go_is_space _ [xe5; x85; xa5] [] 20837%N); try reflexivity; [discriminate|].
+  constructor.
+Qed.
+
 (** parsing any text whatsoever ends with a tree or an error: the fuel of the
     recursive-descent model never runs out, including on the paths the code
     takes after it has recorded a syntax error *)
